@@ -209,6 +209,13 @@ def compare(ctx, case, db, recs, lines, voted, text, what="after import"):
             ctx.violation(case, {"why": "%s: line %d: printed form differs" % (what, i), "line": line, "printed": printed,
                                  "expected": alts[0], "keep_order": case["keep_order"], "text": text})
             return False
+        # printing (and hashing/comparing, which print) must not change the feature
+        hash(f), f == f
+        gk2 = [[k, list(f.attributes[k])] for k in f.attributes.keys()]
+        if gk2 != gk or str(f) != printed:
+            ctx.violation(case, {"why": "%s: line %d: printing/hashing the feature changed its attributes or its printed form" % (what, i),
+                                 "line": line, "before": gk, "after": gk2, "printed_first": printed, "printed_again": str(f), "text": text})
+            return False
         if case["keep_order"] and not case["sort_values"] and alts[0] == line:
             # (alts[0] != line only in the sparse regime, for a line whose own key order is not the
             #  first-seen order of the file: the file-wide order is part of the dialect)
